@@ -229,6 +229,12 @@ def _eval_in(col, case, d, src_path=None):
         img.header.set_data_dtype(arr.dtype)
         if case["scaling"] is not None:
             img.header.set_slope_inter(*case["scaling"])
+        if case.get("big_endian"):
+            # the file stored in the other byte order
+            img = nibabel.Nifti1Image(np.asarray(img.dataobj), None,
+                                      img.header.as_byteswapped(">"))
+            if case["scaling"] is not None:
+                img.header.set_slope_inter(*case["scaling"])
         nibabel.save(img, path)
     dest = os.path.join(d, "ds")
     os.makedirs(dest)
@@ -427,6 +433,13 @@ def cases(tier):
             c2 = dict(c)
             c2["via_cli"] = True
             out.append(c2)
+    # input files stored big-endian
+    for c in list(out):
+        if c["kind"] == "value" and not c.get("via_cli") \
+                and c.get("layout", "3d") != "rgb" \
+                and c["scaling"] in (None, [0.5, 1.0]) \
+                and (c["minmax"] is None or c["mmap"]):
+            out.append(dict(c, big_endian=True))
     # one file converted three times in one process with other options
     for seq in itertools.permutations(("plain", "ignore", "minmax", "mmap"),
                                       3):
